@@ -110,6 +110,12 @@ def build(cfg, values=None):
             calls.append(1)
             lam = type('Lam', (), {})()
             F = sym_F(ctx, 8)
+            t = plyts[0] if plyts else None
+            d_ = t.describe() if isinstance(t, Sym) else None
+            before = (d_ and d_[0] == 'var' and d_[1].endswith('_before')) if values is None else (
+                isinstance(t, Sym) and 'plyt_before' in ctx.used_values and t.is_numeric() and t.n == ctx.used_values['plyt_before'])
+            if before:
+                F = F * V('laminate_before_factor')       # another ply thickness: another laminate
             lam.ABDE = F
             lam.ABD = F[0:6, 0:6].copy()
             return lam
@@ -137,18 +143,26 @@ def build(cfg, values=None):
                                 if (i < 6) == (j < 6):
                                     R[i, j] = R[j, i] = V('R%d%d' % (i, j))
                         return R if nF == 8 else R[0:6, 0:6].copy()
+                    if val == 'EMPTY':
+                        return []
                     return V(val) if isinstance(val, str) else val
+                # via='calc_k0': through the public accessor of the (stored) reduced stiffness that Analysis.static calls
+                ev = (lambda o: o.calc_k0(silent=True)) if cfg.get('via') == 'calc_k0' else (lambda o: o._calc_linear_matrices(silent=True))
                 cc = cone(model)
                 for nm, val in before.items():
                     setattr(cc, nm, value(val))
-                cc._calc_linear_matrices(silent=True)
+                ev(cc)
                 for nm, val in after.items():
                     setattr(cc, nm, value(val))
-                cc._calc_linear_matrices(silent=True)
+                got = ev(cc)
                 fresh = cone(model)
                 for nm, val in after.items():
                     setattr(fresh, nm, value(val))
-                fresh._calc_linear_matrices(silent=True)
+                want = ev(fresh)
+                if cfg.get('via') == 'calc_k0':
+                    A, B = got.todict(), want.todict()
+                    for k in sorted(set(A) | set(B)):
+                        obs.append(('calc_k0-after-redefinition-vs-fresh[%d,%d]' % (k[0], k[1]), A.get(k, 0), B.get(k, 0)))
                 for which in ('k0', 'kG0'):
                     A, B = getattr(cc, which).todict(), getattr(fresh, which).todict()
                     for k in sorted(set(A) | set(B)):
@@ -352,6 +366,12 @@ def build(cfg, values=None):
         def read_stack(stack, plyts=None, laminaprops=None, **kw):
             lam = type('Lam', (), {})()
             F = sym_F(ctx, 8)
+            t = plyts[0] if plyts else None
+            d_ = t.describe() if isinstance(t, Sym) else None
+            before = (d_ and d_[0] == 'var' and d_[1].endswith('_before')) if values is None else (
+                isinstance(t, Sym) and 'plyt_before' in ctx.used_values and t.is_numeric() and t.n == ctx.used_values['plyt_before'])
+            if before:
+                F = F * V('laminate_before_factor')       # another ply thickness: another laminate
             lam.ABDE = F
             lam.ABD = F[0:6, 0:6].copy()
             return lam
@@ -469,6 +489,9 @@ def configs(tier, seed):
                          ('other-loads', ({'Fc': 'Fc_before', 'P': 'P_before', 'T': 'T_before'}, {'Fc': 'Fc', 'P': 'P', 'T': 'T'})),
                          ('constitutive-matrix-given-after-a-laminate', ({}, {'F_reuse': 'MATRIX'}))):
             out.append({'variant': 'history', 'model': model, 'mn': (2, 2, 1), 's': 1, 'cone': True, 'redefine': red, 'group': '(vii) re-definition %s:%s' % (tag, model), 'm': 1, 'n': 1, 'timeout_ms': 180000})
+            if tag in ('other-radius-and-length', 'constitutive-matrix-given-after-a-laminate', 'cylinder-to-cone'):
+                out.append({'variant': 'history', 'via': 'calc_k0', 'model': model, 'mn': (2, 2, 1), 's': 1, 'cone': True, 'redefine': red,
+                            'group': '(vii) re-definition %s through calc_k0:%s' % (tag, model), 'm': 1, 'n': 1, 'timeout_ms': 180000})
     # (v) elastic edge restraints through get_linear_matrices / fk0edges against the edge-spring energy
     import compmech.conecyl.modelDB as mdb
     enames = [m for m in sorted(MODELS) + sorted(ISO) if m in mdb.db and hasattr(mdb.db[m]['linear'], 'fk0edges') or (m in ISO and m in mdb.db)]
